@@ -654,6 +654,171 @@ theorem C06_no_overflow_exppp_filename (len : Nat) : (fileNameOut fileNameCfg le
 theorem C06_exppp_filename_unguarded_witness :
     fileNameOut { cap := 1000, ext := 4, app := 3, guard := none } 996 = .overflow 1000 := by decide
 
+/-! ## recursion over the supertype relation -/
+
+theorem notIn_of_mem {m : List Nat} {x : Nat} (h : x ∈ m) : notIn m x = false := by simp [notIn, h]
+theorem notIn_of_not_mem {m : List Nat} {x : Nat} (h : x ∉ m) : notIn m x = true := by simp [notIn, h]
+
+theorem unmarked_mono (u m m' : List Nat) (h : ∀ x, x ∈ m → x ∈ m') : unmarked u m' ≤ unmarked u m := by
+  unfold unmarked
+  induction u with
+  | nil => simp
+  | cons a t ih =>
+    by_cases ha : a ∈ m
+    · rw [List.filter_cons, List.filter_cons, notIn_of_mem ha, notIn_of_mem (h a ha)]
+      simpa using ih
+    · by_cases hb : a ∈ m'
+      · rw [List.filter_cons, List.filter_cons, notIn_of_not_mem ha, notIn_of_mem hb]
+        simp; omega
+      · rw [List.filter_cons, List.filter_cons, notIn_of_not_mem ha, notIn_of_not_mem hb]
+        simp; exact ih
+
+theorem unmarked_lt (u m : List Nat) (e : Nat) (he : e ∈ u) (hm : e ∉ m) : unmarked u (e :: m) < unmarked u m := by
+  induction u with
+  | nil => simp at he
+  | cons a t ih =>
+    have mono := unmarked_mono t m (e :: m) (fun x hx => List.mem_cons_of_mem _ hx)
+    unfold unmarked at mono ih ⊢
+    by_cases hae : a = e
+    · subst hae
+      rw [List.filter_cons, List.filter_cons, notIn_of_not_mem hm, notIn_of_mem (List.mem_cons_self)]
+      simp; omega
+    · have het : e ∈ t := by
+        cases he with
+        | head => exact absurd rfl hae
+        | tail _ h => exact h
+      have := ih het
+      by_cases ha : a ∈ m
+      · rw [List.filter_cons, List.filter_cons, notIn_of_mem ha, notIn_of_mem (List.mem_cons_of_mem _ ha)]
+        simpa using this
+      · have : a ∉ e :: m := by simp [hae, ha]
+        rw [List.filter_cons, List.filter_cons, notIn_of_not_mem ha, notIn_of_not_mem this]
+        simp; omega
+
+def Closed (u : List Nat) (h : Hier) : Prop := ∀ x, x ∈ u → ∀ y, y ∈ h x → y ∈ u
+
+/-- the loop over supertypes, given that single visits with this fuel succeed on unmarked entities -/
+theorem visitSupers_ok (u : List Nat) (h : Hier) (fuel : Nat)
+    (IH : ∀ marked e, e ∈ u → e ∉ marked → unmarked u marked ≤ fuel →
+      ∃ m, visit true h fuel marked e = some m ∧ ∀ x, x ∈ marked → x ∈ m) :
+    ∀ (rest marked : List Nat), (∀ y, y ∈ rest → y ∈ u) → unmarked u marked ≤ fuel →
+      ∃ m, visitSupers true h fuel marked rest = some m ∧ ∀ x, x ∈ marked → x ∈ m := by
+  intro rest
+  induction rest with
+  | nil => intro marked _ _; exact ⟨marked, by simp [visitSupers], fun x hx => hx⟩
+  | cons s rest ih =>
+    intro marked hu hf
+    by_cases hs : s ∈ marked
+    · obtain ⟨m, hm, hsub⟩ := ih marked (fun y hy => hu y (List.mem_cons_of_mem _ hy)) hf
+      exact ⟨m, by simp [visitSupers, hs, hm], hsub⟩
+    · obtain ⟨m1, h1, hsub1⟩ := IH marked s (hu s List.mem_cons_self) hs hf
+      have hf1 : unmarked u m1 ≤ fuel := Nat.le_trans (unmarked_mono u marked m1 hsub1) hf
+      obtain ⟨m2, h2, hsub2⟩ := ih m1 (fun y hy => hu y (List.mem_cons_of_mem _ hy)) hf1
+      exact ⟨m2, by simp [visitSupers, hs, h1, h2], fun x hx => hsub2 x (hsub1 x hx)⟩
+
+theorem visit_ok (u : List Nat) (h : Hier) (hc : Closed u h) :
+    ∀ (fuel : Nat) (marked : List Nat) (e : Nat), e ∈ u → e ∉ marked → unmarked u marked ≤ fuel →
+      ∃ m, visit true h fuel marked e = some m ∧ ∀ x, x ∈ marked → x ∈ m := by
+  intro fuel
+  induction fuel with
+  | zero =>
+    intro marked e he hm hf
+    have := unmarked_lt u marked e he hm
+    omega
+  | succ fuel IH =>
+    intro marked e he hm hf
+    have hlt := unmarked_lt u marked e he hm
+    obtain ⟨m, hv, hsub⟩ := visitSupers_ok u h fuel IH (h e) (e :: marked) (hc e he) (by omega)
+    exact ⟨m, by simp [visit, hv], fun x hx => hsub x (List.mem_cons_of_mem _ hx)⟩
+
+/-- top level: the function is called for every entity, marked or not -/
+theorem visit_terminates (u : List Nat) (h : Hier) (hc : Closed u h) (marked : List Nat) (e : Nat) (he : e ∈ u) :
+    ∃ m, visit true h (u.length + 1) marked e = some m := by
+  have hu : unmarked u (e :: marked) ≤ u.length := by
+    unfold unmarked; exact List.length_filter_le _ _
+  obtain ⟨m, hv, _⟩ := visitSupers_ok u h u.length (visit_ok u h hc u.length) (h e) (e :: marked) (hc e he) hu
+  exact ⟨m, by simp [visit, hv]⟩
+
+/-- without the mark an entity that names itself never returns, whatever the fuel -/
+theorem visit_unmarked_self_loop (fuel : Nat) : visit false (fun _ => [0]) fuel [] 0 = none := by
+  induction fuel with
+  | zero => simp [visit]
+  | succ n ih => simp [visit, visitSupers, ih]
+
+theorem nuBody_false_le (sep : Nat) : ∀ (ks : List Nat) (fs : List Bool), nuBody sep false ks fs ≤ ks.sum + sep * ks.length
+  | [], _ => by simp [nuBody]
+  | _ :: _, [] => by simp [nuBody]
+  | k :: ks, f :: fs => by
+    have ih := nuBody_false_le sep ks fs
+    cases f with
+    | true => simp [nuBody, Nat.mul_add]; omega
+    | false => simp [nuBody, Nat.mul_add]; omega
+
+theorem nuBody_true_le (sep : Nat) : ∀ (ks : List Nat) (fs : List Bool), nuBody sep true ks fs ≤ ks.sum + sep * (ks.length - 1)
+  | [], _ => by simp [nuBody]
+  | _ :: _, [] => by simp [nuBody]
+  | k :: ks, f :: fs => by
+    cases f with
+    | true =>
+      have := nuBody_false_le sep ks fs
+      simp [nuBody]; omega
+    | false =>
+      have ih := nuBody_true_le sep ks fs
+      have : sep * (ks.length - 1) ≤ sep * ks.length := Nat.mul_le_mul_left _ (Nat.sub_le _ _)
+      simp [nuBody]; omega
+
+theorem nonUniqueLen_le_max (c : NonUniqueCfg) (flags : List Bool) : nonUniqueLen c flags ≤ nonUniqueMax c := by
+  unfold nonUniqueLen nonUniqueMax
+  have hb := nuBody_true_le c.sepLen c.kinds flags
+  simp only
+  split <;> omega
+
+/-- **C06, `ENTITYcalculate_inheritance`**: on every supertype relation over a finite set of entities — cyclic ones
+(an entity naming itself, a → c → b → a, cycles with ancestors outside) included — the recursion returns: with fuel
+`|entities| + 1` the model never runs out.  Depends on the regenerated fact that the entity is marked before its
+supertypes are walked. -/
+theorem C06_inheritance_terminates (u : List Nat) (h : Hier) (hc : Closed u h) (marked : List Nat) (e : Nat) (he : e ∈ u) :
+    ∃ m, visit inheritanceMarkFirst h (u.length + 1) marked e = some m := by
+  have hm : inheritanceMarkFirst = true := by decide
+  rw [hm]; exact visit_terminates u h hc marked e he
+
+/-- **C06, the OVERLOADED_ATTR look-up of `ENTITYresolve_expressions`** (walks supertypes of entities outside a reported cycle):
+same statement, from the regenerated `search_id` mark. -/
+theorem C06_named_attribute_terminates (u : List Nat) (h : Hier) (hc : Closed u h) (marked : List Nat) (e : Nat) (he : e ∈ u) :
+    ∃ m, visit namedAttrMarkFirst h (u.length + 1) marked e = some m := by
+  have hm : namedAttrMarkFirst = true := by decide
+  rw [hm]; exact visit_terminates u h hc marked e he
+
+/-- the recursion without the mark (seeded regression C06-a1; `ENTITYget_named_attribute` before `fix: C06-17`):
+an entity that is its own supertype is never left, whatever the fuel -/
+theorem C06_recursion_unmarked_witness (fuel : Nat) : visit false (fun _ => [0]) fuel [] 0 = none :=
+  visit_unmarked_self_loop fuel
+
+example : Closed [0, 1, 2] (fun i => [(i + 1) % 3]) := by
+  intro x hx y hy
+  simp at hx hy
+  rcases hx with rfl | rfl | rfl <;> simp_all
+
+/-! ## `non_unique_types_string` -/
+
+/-- **C06, `non_unique_types_string`** (exp2cxx and exp2python): whichever kinds of underlying type a select reaches twice,
+the string built with unchecked `strcat` fits the malloc'ed block: capacity ≥ longest possible result + 1, both
+regenerated (malloc argument; literals of the strcat calls). -/
+theorem C06_no_overflow_non_unique_types (tool : String) (c : NonUniqueCfg) (hm : (tool, c) ∈ nonUniqueCfgs)
+    (flags : List Bool) : nonUniqueOut c flags = .ok (nonUniqueLen c flags) := by
+  have hall : nonUniqueCfgs.all (fun p => decide (nonUniqueMax p.2 + 1 ≤ p.2.cap)) = true := by decide
+  have hc := List.all_eq_true.mp hall (tool, c) hm
+  simp only [decide_eq_true_eq] at hc
+  have := nonUniqueLen_le_max c flags
+  unfold nonUniqueOut
+  have : nonUniqueLen c flags + 1 ≤ c.cap := by omega
+  simp [this]
+
+/-- seeded regression C06-a2: 95 bytes, all eight kinds reached twice → 107 characters + NUL -/
+theorem C06_non_unique_types_witness :
+    nonUniqueOut { cap := 95, openLen := 1, sepLen := 3, zeroLen := 1, closeLen := 1, kinds := [11, 8, 10, 10, 15, 12, 8, 10] }
+      [true, true, true, true, true, true, true, true] = .overflow 95 := by decide
+
 /-! ## exit status -/
 
 def exitCfgSmall (c : ExitCfg) : Bool :=
